@@ -141,6 +141,7 @@ class MonC02(Monitor):
         self.committed = {}
         self.order = []       # ids in sampler.bounds order at last commit
         self.keep = []        # keep bound objects alive (stable ids)
+        self.at_write = ({}, [])
         self.n_checks = 0
         self.neg_inf_seen = 0
         self.skipped_zero_z = 0
@@ -164,8 +165,10 @@ class MonC02(Monitor):
             if not info['from_file']:
                 self.live, self.committed, self.order = {}, {}, []
                 return
-            # only the file survived: proposals of a killed batch are gone
-            old = [self.committed.get(k, [0, 0]) for k in self.order]
+            # only the file survived: proposals made since the last
+            # completed checkpoint write are gone
+            src, order = self.at_write
+            old = [src.get(k, [0, 0]) for k in order]
             if len(old) != len(s.bounds):
                 world.violate('C02', 'resume_bounds',
                               'resumed sampler has {} bounds, the last '
@@ -174,6 +177,16 @@ class MonC02(Monitor):
             self.live = {id(b): list(t) for b, t in zip(s.bounds, old)}
             self._commit(world)
             self.check(world, tag)
+        elif tag == 'post_write':
+            # (bounds and their order as they are in the file)
+            for b in s.bounds:
+                self.live.setdefault(id(b), [0, 0])
+                self.keep.append(b)
+            self.at_write = (copy.deepcopy(self.live),
+                             [id(b) for b in s.bounds])
+        elif tag == 'restart_fresh':
+            self.live, self.committed, self.order = {}, {}, []
+            self.at_write = ({}, [])
         elif tag == 'post_add_bound':
             self._commit(world)
             self.check(world, tag)
@@ -590,6 +603,7 @@ class MonC12(Monitor):
         self.last_unexplored_calls = 0
         self.valid = []             # indices of calls that were not lost
         self.valid_upto = 0
+        self.calls_at_write = 0
         self.n_checks = 0
         self.toggle_checks = 0
         self.view_rows_checked = 0
@@ -615,13 +629,16 @@ class MonC12(Monitor):
             self.attach(world)      # a new computation starts from scratch
             return
         if tag == 'kill':
+            # everything evaluated since the last completed checkpoint write
+            # is lost with the process (the batch being evaluated, or - when
+            # the process died inside a write - the batches whose write did
+            # not complete)
             self._sync_valid()
-            lost = REC.batch_rows.get(REC.batch, 0)
-            if lost:
-                del self.valid[-lost:]
+            self.valid = [i for i in self.valid if i < self.calls_at_write]
             return
         if tag == 'post_write':
             self.at_write = self._snapshot(s)
+            self.calls_at_write = len(REC.calls)
             return
         if tag == 'pre_resume':
             if s.explored:
